@@ -4,6 +4,7 @@ package chk
 
 import (
 	"fmt"
+	"strings"
 	"go/constant"
 	"go/token"
 	"go/types"
@@ -877,4 +878,24 @@ func storageField(v ssa.Value, depth int) string {
 		}
 	}
 	return ""
+}
+
+func init() {
+	Registry["WOERR"] = func(c *Ctx, r *Report) {
+		ruleOERR(c, r, "O-ERR", func(f *ssa.Function) bool {
+			if f.Pkg == nil || f.Synthetic != "" {
+				return false
+			}
+			n := f.Pkg.Pkg.Path()
+			return !strings.Contains(n, "/internal") && !strings.HasSuffix(c.Fset.Position(f.Pos()).Filename, "_test.go")
+		})
+		bad := 0
+		for _, o := range r.Obls {
+			if o.Status != Discharged {
+				bad++
+				fmt.Println(o.Status, o.Key, o.Pos)
+			}
+		}
+		fmt.Println("calls", len(r.Obls), "not discharged", bad)
+	}
 }
